@@ -5,7 +5,7 @@ import os
 from ..core import AnalysisError, where, norm, VERIF
 from ..x86table import model
 from ..shapes import return_paths, u
-from ..srcmodel import walk_no_nested
+from ..srcmodel import walk_no_nested, parent
 
 CLASS_FLAGS = {
     'none': (False, False, False),
@@ -276,6 +276,112 @@ def run(ctx, report):
                      'address range: the destination is offset + length + displacement reduced to the operand size, as a non-negative address', floor=20)
     dst_eval_rule(ctx, R6, M)
 
+    # ---------------------------------------------------------------- D7 which operands a segment prefix reaches
+    R7 = report.rule('C17.D7', 'every store of a segment override into a decoded operand is guarded so that it reaches memory operands only (guards evaluated on the register, immediate and memory '
+                     'operand kinds): a branch with a 2e/3e hint prefix keeps an immediate operand that is_imm still recognises, so its destination is still reported', floor=3)
+    segm_guard_rule(ctx, R7, M)
+
+
+def segm_guard_rule(ctx, R, M):
+    """Store sites `<operand>[x86_afs.segm] = ..` in ia32_arch: the conditions guarding each site (enclosing if / else branches, earlier `if ..: continue|break|return` in the enclosing
+    blocks) are evaluated with the checker's interpreter on operand dictionaries of the three kinds the decoder builds.  A conjunct the interpreter cannot evaluate (it does not speak about
+    the operand) counts as possibly true.  For a kind the store can reach, is_imm / is_reg / is_address of the operand with the segment key must answer as without it."""
+    from ..consteval import Evaluator, NotConst, PyRaise
+    arch, afs, E = M.arch, M.afs, M.env
+    scope = dict((k, v) for k, v in E.items() if isinstance(v, (str, int, bool, list, tuple, dict)) or v is None)
+    scope['x86_afs'] = afs
+    for fname_, fnode_ in arch.funcs.items():
+        scope.setdefault(fname_, fnode_)
+    kinds = {
+        'immediate as read': {afs.imm: 5},
+        'immediate completed': {afs.imm: 5, afs.ad: False, afs.size: afs.u32},
+        'symbolic immediate': {afs.symb: {'lbl': 1}, afs.ad: False, afs.size: afs.u32},
+        'register': {0: 1, afs.ad: False, afs.size: afs.u32},
+        'memory [eax+5]': {0: 1, afs.imm: 5, afs.ad: True, afs.size: afs.u32},
+        'memory [abs]': {afs.imm: 0x1000, afs.ad: afs.u32, afs.size: afs.u32},
+    }
+    preds = [f for f in ('is_imm', 'is_reg', 'is_address') if f in arch.funcs]
+    if len(preds) < 3:
+        raise AnalysisError('operand kind predicates is_imm / is_reg / is_address not all found in ia32_arch')
+
+    def may_hold(cond, env):
+        try:
+            return bool(Evaluator(dict(scope, **env)).ev(cond))
+        except PyRaise:
+            return False
+        except NotConst:
+            if isinstance(cond, ast.BoolOp):
+                rs = [may_hold(v, env) for v in cond.values]
+                return all(rs) if isinstance(cond.op, ast.And) else any(rs)
+            if isinstance(cond, ast.UnaryOp) and isinstance(cond.op, ast.Not):
+                try:
+                    return not bool(Evaluator(dict(scope, **env)).ev(cond.operand))
+                except (NotConst, PyRaise):
+                    return True
+            return True
+
+    sites = []
+    for fn in [n for n in ast.walk(arch.tree) if isinstance(n, ast.FunctionDef)]:
+        for n in walk_no_nested(fn):
+            if isinstance(n, ast.Assign):
+                for t in n.targets:
+                    if isinstance(t, ast.Subscript) and u(t.slice) in ('x86_afs.segm', 'afs.segm') :
+                        sites.append((fn, n, t))
+    if not sites:
+        raise AnalysisError('no store of a segment override into an operand found in ia32_arch (the decode fix-up loop is expected)')
+    mem_reached = False
+    for fn, st, t in sites:
+        if not isinstance(t.value, ast.Name):
+            mem_reached = True
+            R.note('segment store into %s in %s is not a store into a named operand: not followed' % (u(t.value), fn.name))
+            continue
+        var = t.value.id
+        guards = []        # (cond, polarity)
+        node = st
+        while node is not fn:
+            par = parent(node)
+            if par is None:
+                break
+            for fld in ('body', 'orelse', 'finalbody'):
+                lst = getattr(par, fld, None)
+                if isinstance(lst, list) and node in lst:
+                    if isinstance(par, (ast.If, ast.While)):
+                        guards.append((par.test, fld == 'body'))
+                    for prev in lst[:lst.index(node)]:
+                        if isinstance(prev, ast.If) and not prev.orelse and prev.body and isinstance(prev.body[-1], (ast.Continue, ast.Break, ast.Return, ast.Raise)):
+                            guards.append((prev.test, False))
+            node = par
+        for kname, kd in kinds.items():
+            env = {var: dict(kd)}
+            reach = all((may_hold(c, env) if pol else may_hold(ast.UnaryOp(op=ast.Not(), operand=c), env)) for c, pol in guards)
+            inst = 'segm-store@%s:%s' % (fn.name, kname)
+            if not reach:
+                R.ok(inst, sample='the segment store in %s does not reach an operand of kind %s' % (fn.name, kname))
+                continue
+            if kname.startswith('memory'):
+                mem_reached = True
+            with_seg = dict(kd)
+            with_seg[afs.segm] = 1
+            changed = []
+            for pf in preds:
+                try:
+                    a_ = bool(Evaluator(scope).call_user(arch.funcs[pf], [dict(kd)]))
+                    b_ = bool(Evaluator(scope).call_user(arch.funcs[pf], [with_seg]))
+                except (NotConst, PyRaise) as e:
+                    raise AnalysisError('%s is outside the evaluable subset: %s' % (pf, e))
+                if a_ != b_:
+                    changed.append('%s: %s -> %s' % (pf, a_, b_))
+            if changed:
+                R.violation(inst, 'segm-store:%s' % kname.split()[0], 'the segment override stored by %s reaches an operand of kind %s (guards: %s); with the segment key the operand is classified '
+                            'differently (%s): getdstflow no longer finds the destination of a direct branch that carries a 2e / 3e hint prefix'
+                            % (fn.name, kname, ' and '.join(('' if pol else 'not ') + '(' + u(c) + ')' for c, pol in guards) or 'none', '; '.join(changed)), where(arch, st),
+                            witness='2e 74 05 (jz with a branch hint): getdstflow')
+            else:
+                R.ok(inst, sample='the segment store in %s reaches %s operands; their kind is unchanged by the key' % (fn.name, kname))
+    if not mem_reached:
+        R.violation('segm-store:memory', 'segm-store:never-reaches-memory', 'no store of a segment override can reach a memory operand: the guards of %s exclude every memory operand kind'
+                    % ', '.join(sorted(set(f.name for f, _, _ in sites))), where(arch, sites[0][1]), witness='64 8b 00: mov eax, fs:[eax]')
+
 
 def dst_eval_rule(ctx, R, M):
     from ..consteval import Evaluator, Obj, NotConst, PyRaise, class_obj
@@ -331,6 +437,7 @@ def dst_eval_rule(ctx, R, M):
 
 
 MUTANTS = [
+    ('segm-on-non-register', 'miasmx/arch/ia32_arch.py', '                    if is_address(a) and p in prefix_seg.values():', '                    if not is_reg(a) and p in prefix_seg.values():', 'C17.D7'),
     ('intsize-ext-signed', 'miasmx/arch/ia32_arch.py', "            return [uint16, uint32][self.opmode == u32](im)", "            return [int16, int32][self.opmode == u32](im)", 'C17.D6'),
     ('iretw-copy-of-into', 'miasmx/arch/ia32_arch.py', "        pm = self.db_mnemo[0xcf]\n        self.iretw_m", "        pm = self.db_mnemo[0xce]\n        self.iretw_m", 'C17.D4'),
     ('dstflow-farcall-raises', 'miasmx/arch/ia32_arch.py', '        if self.m.name == "jmpf" or \\\n                (self.m.name == "call" and len(self.arg) == 2):', '        if self.m.name == "jmpf":', 'C17.D3'),
